@@ -23,6 +23,7 @@ FATES = ["dup", "delay2", "delay8", "delay70", "drop"]
 
 
 TIER = ["quick"]
+WALKS = {"walk": (32767, -40), "walk33": (33,), "walk4": (16000, 16000, 16000, 17500), "walkback": (-1, -33, 40)}
 
 
 def scenario_init():
@@ -143,6 +144,22 @@ def scenario(params, ch):
                 w.tick()
             replay_point("right-after-gap")
             w.run(6)
+        elif macro.startswith("walk"):
+            # somebody who only knows the public header layout sends datagrams with chosen numbers and junk bodies at the
+            # receiver (they fail authentication); afterwards every recorded genuine datagram is offered for replay.
+            # Offsets are relative to the newest datagram number seen on the wire.
+            rc_ = w.server_conn(0) if sender == "c" else w.clients[0].conn
+            tmpl = next((d for d in reversed(recorded) if (d.src == "s") == (sender == "s") and len(d.data) >= 36), None)
+            for off in WALKS[macro]:
+                if rc_ is None or tmpl is None:
+                    break
+                nseq = (int(rc_.bitfield_pkt.current_seqnum) - 1 + off) % 65535 + 1
+                forged = tmpl.data[:8] + struct.pack(">H", nseq) + tmpl.data[10:20] + bytes((b ^ 0x5A) for b in tmpl.data[20:])
+                if sender == "s":
+                    w.inject("c0", forged, note="forged header, number %+d" % off)
+                else:
+                    w.inject("s", forged, client_addr=w.clients[0].addr, note="forged header, number %+d" % off)
+                w.tick()
         elif macro == "burst":
             k = 0
             for t in range(10):
@@ -260,6 +277,9 @@ def params_list(tier):
                 out.append((direction, msgs, "none", "cs|by", 1, 100))
             # burst loss of > 32 datagrams, then a replay right behind the first datagram that gets through
             out.append((direction, msgs, "gap40", "cs|dt50", 1, 0))
+            # forged headers with chosen datagram numbers ahead of the replays
+            for macro in (("walk", "walk33") if tier == "quick" else ("walk", "walk33", "walk4", "walkback")):
+                out.append((direction, msgs, macro, "cs", 1, 0))
             # the same with every counter a few numbers below the 16-bit wrap
             for macro in (("burst",) if tier == "quick" else ("none", "burst")):
                 out.append((direction, msgs, macro, "cs|wrap", 1, 0))
